@@ -24,6 +24,63 @@ class RuleInfo:
                 self.method = const_str(v)
                 break
 
+    def helper(self, ctx, role):
+        """rule-local helper by ROLE (the name is only a fallback), so that renaming a helper is not an analysis error:
+        breakTie   the local function that consults C.byTieOrder
+        transfer   the local function that walks a ballot with <param>.advance()
+        calcQuota  the local function whose result is assigned to E.quota
+        hasQuota   the one-parameter predicate `p.vote >(=) E.quota` used to filter C.hopeful() in an election step
+        iterate    the local function called from the main loop that (transitively) elects candidates"""
+        if not hasattr(self, '_roles'):
+            self._roles = {}
+        if role in self._roles:
+            return self._roles[role]
+        found = None
+        hs = list(self.helpers.values())
+        if role == 'breakTie':
+            c = [h for h in hs if any(isinstance(n, ast.Call) and isinstance(n.func, ast.Attribute) and n.func.attr == 'byTieOrder'
+                                      for n in h.own_nodes())]
+            found = c[0] if len(c) == 1 else None
+        elif role == 'transfer':
+            c = [h for h in hs if h.params and any(isinstance(n, ast.Call) and isinstance(n.func, ast.Attribute) and n.func.attr == 'advance'
+                                                   and isinstance(n.func.value, ast.Name) and n.func.value.id == h.params[0] for n in h.own_nodes())]
+            found = c[0] if len(c) == 1 else None
+        elif role == 'calcQuota':
+            names = set()
+            for g in all_funcs_of(self.count):
+                for n in g.own_nodes():
+                    if isinstance(n, ast.Assign) and len(n.targets) == 1 and isinstance(n.targets[0], ast.Attribute) and n.targets[0].attr == 'quota' \
+                            and isinstance(n.value, ast.Call) and isinstance(n.value.func, ast.Name) and not n.value.args:
+                        names.add(n.value.func.id)
+            c = [h for h in hs if h.name in names]
+            found = c[0] if len(c) == 1 else None
+        elif role == 'hasQuota':
+            used = set()
+            for g in all_funcs_of(self.count):
+                for n in g.own_nodes():
+                    if isinstance(n, (ast.ListComp, ast.GeneratorExp)):
+                        for gen in n.generators:
+                            for cond in gen.ifs:
+                                for sub in ast.walk(cond):
+                                    if isinstance(sub, ast.Call) and isinstance(sub.func, ast.Name) and len(sub.args) == 1:
+                                        used.add(sub.func.id)
+            c = [h for h in hs if h.name in used and len(h.params) == 1 and any(
+                isinstance(r, ast.Return) and isinstance(r.value, ast.Compare) and 'quota' in unparse(r.value) for r in h.own_nodes())]
+            found = c[0] if len(c) == 1 else None
+        elif role == 'iterate':
+            loop = self.main_loop()
+            called = set(n.func.id for n in ast.walk(loop) if isinstance(n, ast.Call) and isinstance(n.func, ast.Name))
+            c = [h for h in hs if h.name in called and 'elect' in effects(ctx, h)]
+            found = c[0] if len(c) == 1 else None
+        if found is None:
+            fallback = {'iterate': ['iterate', 'iterateStep']}.get(role, [role])
+            for nm in fallback:
+                if nm in self.helpers:
+                    found = self.helpers[nm]
+                    break
+        self._roles[role] = found
+        return found
+
     def main_loops(self):
         return [st for st in self.count.node.body if isinstance(st, ast.While)]
 
